@@ -314,6 +314,19 @@ def interval(e, cx, refine, depth=0, at=None):
     return tr
 
 
+def _peel_widening(e):
+    """`x as usize` with x an unsigned integer no wider than the target denotes the same number as x."""
+    e = hir.simp(e)
+    while isinstance(e, dict) and e.get("k") == "cast":
+        inner = hir.simp(e["e"])
+        ti, to = (inner.get("ty") or "").lstrip("&"), (e.get("ty") or "")
+        if ti in BITS and to in BITS and ti.startswith("u") and BITS[ti] <= BITS[to]:
+            e = inner
+        else:
+            break
+    return e
+
+
 class Refinements:
     """Constraints `place ∈ [lo, hi]` implied by structural path conditions; validity is decided per program point: a
     constraint is dropped when the place is (re)assigned on a path between the condition and that point."""
@@ -389,8 +402,9 @@ class Refinements:
                         op = {"Lt": "Ge", "Le": "Gt", "Gt": "Le", "Ge": "Lt", "Eq": "Ne", "Ne": "Eq"}[op]
                     l, r = c["l"], c["r"]
                     li, ri = interval(l, cx, {}, at=c), interval(r, cx, {}, at=c)
-                    lp = hir.place_str(hir.simp(l)) if hir.simp(l).get("k") in ("local", "field", "un") else None
-                    rp = hir.place_str(hir.simp(r)) if hir.simp(r).get("k") in ("local", "field", "un") else None
+                    lw, rw = _peel_widening(l), _peel_widening(r)
+                    lp = hir.place_str(lw) if lw.get("k") in ("local", "field", "un") else None
+                    rp = hir.place_str(rw) if rw.get("k") in ("local", "field", "un") else None
                     if ri is not None and lp:
                         if op == "Lt":
                             self._add(lp, -BIG, ri[1] - 1, gp, fi)
